@@ -39,6 +39,7 @@ class Size(enum.Enum):
 
 
 ENUMS = {"Color": Color, "Size": Size}
+BY_VALUE = set()      # names of enum classes whose Enum fields are declared with serialization_by_value=True (C08 only)
 
 PATTERNS = ["^[a-z]+$", "[0-9][0-9]", "a.c", "^(x|yy)$", "b+", "^$", ".*z"]
 STRINGS = ["", "a", "abc", "abcd", "x", "yy", "42", "a1c", "zzz", "hello world", "True", "False", "RED", "S",
@@ -191,9 +192,10 @@ def field_src(f):
         return "Enum(values=[%s])" % ", ".join(py_src(v) for v in f["values"])
     if t == "enumcls":
         cls = ENUMS[f["cls"]]
+        byv = ", serialization_by_value=True" if f["cls"] in BY_VALUE else ""
         if list(f["members"]) == [m.name for m in cls]:
-            return "Enum(values=%s)" % f["cls"]
-        return "Enum(values=[%s])" % ", ".join("%s.%s" % (f["cls"], m) for m in f["members"])
+            return "Enum(values=%s%s)" % (f["cls"], byv)
+        return "Enum(values=[%s]%s)" % (", ".join("%s.%s" % (f["cls"], m) for m in f["members"]), byv)
     if t in ("seqany", "seqeach", "seqpos"):
         cls = "Array" if f["k"] == "list" else "Deque"
         args = []
